@@ -577,6 +577,9 @@ class Interp:
                 return None
             hook = self.extern.get("macro")
             if hook is not None:
+                if "repeat" in n and isinstance(n["repeat"], dict):
+                    # vec![e; len]: the hook receives [value of e, value of len]
+                    return hook(n, [self.ev(n["repeat"]["e"], env, depth), self.ev(n["repeat"]["len"], env, depth)])
                 return hook(n, [self.ev(a, env, depth) for a in n.get("args", [])] if "args" in n else None)
             raise NotPure("macro " + n["path"])
         raise NotPure("expression kind " + k)
